@@ -35,6 +35,7 @@ REQUESTS = [
     "{ two(a: 1, b: 2) num }",
     "query Q($s: Boolean!) { alist { id name @include(if: $s) } }",
     "{ a { peer { ... on A { peer { id } } } } num }",
+    "{ color tag ints num }",
 ]
 SELF_NESTED = "{ a { peer { ... on A { peer { id } } } } num }"
 SUSPEND_HOOKS = {"{ two(a: 1, b: 2) num }"}
